@@ -84,7 +84,21 @@ func (b Branch) MedianTimeAndWork(ctx context.Context,
 	}
 
 	// Sort by time
-	sort.Sort(list)
+	if count == 3 {
+		// Use the same compare and swap sequence as the network so that the same header is
+		// selected when timestamps are equal.
+		if list[0].time > list[2].time {
+			list.Swap(0, 2)
+		}
+		if list[0].time > list[1].time {
+			list.Swap(0, 1)
+		}
+		if list[1].time > list[2].time {
+			list.Swap(1, 2)
+		}
+	} else {
+		sort.Sort(list)
+	}
 
 	// Get values from the middle item in the list.
 	result := list[count/2]
